@@ -28,7 +28,11 @@ func VerifDumpGroup(g SelectorGroup) []VerifSel {
 func VerifDump(s Sel) VerifSel {
 	switch s := s.(type) {
 	case tagSelector:
-		return VerifSel{Kind: "tag", Strs: []string{s.String()}}
+		name := s.tagS
+		if s.tag != 0 {
+			name = s.tag.String()
+		}
+		return VerifSel{Kind: "tag", Strs: []string{name}}
 	case classSelector:
 		return VerifSel{Kind: "class", Strs: []string{s.class}}
 	case idSelector:
